@@ -254,7 +254,8 @@ impl Read for SimReader {
             }
         }
         let k = k as usize;
-        let p = self.pos as usize;
+        // a position beyond the end (after a seek past EOF) reads as end of file, as a real file does
+        let p = (self.pos as usize).min(self.data.len());
         buf[..k].copy_from_slice(&self.data[p..p + k]);
         self.pos += k as u64;
         self.stats.bytes += k as u64;
